@@ -30,9 +30,11 @@ _IPv4_OCTET_PATTERN = r"(25[0-5]|(2[0-4]|1?[0-9])?[0-9])"
 _IPv4_ENCLOSING = (
     r"[^a-zA-Z0-9.]"  # Match anything but "word" chars (minus underscore) or `.`
 )
-_IPv6_ENCLOSING = (
-    r"[^a-zA-Z0-9:]"  # Match anything but "word" chars (minus underscore) or `:`
-)
+# The IPv6 pattern is compiled with IGNORECASE; the enclosing class must stay
+# case-sensitive (?-i:...), otherwise the non-ASCII characters whose case folding
+# is an ASCII letter (U+0130, U+0131, U+017F, U+212A) stop counting as enclosing
+# characters and an address next to one of them is left in clear text
+_IPv6_ENCLOSING = r"(?-i:[^a-zA-Z0-9:])"  # Match anything but "word" chars (minus underscore) or `:`
 
 # Deliberately allowing leading zeros and will remove them later
 IPv4_PATTERN = re.compile(
